@@ -212,6 +212,10 @@ class FakeSocket(socket.socket):
 
     # ---- stream ----
     def connect_ex(self, dest):
+        if self._kind == socket.SOCK_DGRAM:
+            self.peer = dest
+            self.connected = True
+            return 0
         script = self.net.tcp_for(dest)
         if script is None:
             raise HarnessError(f"no TCP script for {dest}")
